@@ -3,7 +3,7 @@ from fractions import Fraction
 from .. import core, epflow, gen, metacheck, oracles
 from .c11 import text_of, fmt_any
 
-THEOREMS = ["C10_reorder", "C10_normalize_reorder", "C10_reorder_declared", "C10_split", "C10_rename_balance", "C10_completion_order_independent",
+THEOREMS = ["C10_reorder", "C10_normalize_reorder", "C10_reorder_declared", "C10_normalize_rename", "C10_rename_declared", "C10_split", "C10_rename_balance", "C10_completion_order_independent",
             "C10_aux_order_independent", "C10_sorted", "C10_text_is_read_by_trimmed_lines", "C10_text_whitespace",
             "C10_text_ignored_line", "C10_text_bom", "C10_text_crlf", "C10_text_explicit_id0", "C10_text_omitted_id_is_zero"]
 
